@@ -14,6 +14,7 @@ package lexer
 //@   ensures pos: 0 <= l.position && l.position <= len(l.expression) && l.expression == old(l.expression)
 //@   ensures[C11] bnd: result == nil ==> boundAt(l.expression, l.position)
 //@   ensures[C09] progress: result == nil && t.Type != const("lexer.EndToken") ==> l.position > old(l.position)
+//@   ensures[C09] monotone: result == nil ==> l.position >= old(l.position)
 //@   ensures[C03 C16] delimiters: result == nil ==> tokOK(t.Type, t.Value)
 
 // decodeRune: end of input and undecodable bytes are errors; everything else is a rune of 1..4 bytes.
